@@ -72,6 +72,75 @@ fn c13_bigwig_accept_predicate() {
     core::mem::forget(chrom);
 }
 
+// @harness c13_bigwig_accept_slot_filling
+// @props C13
+// @tier quick
+// @kind core
+// @timeout 900
+// @mem 16
+// @functions bigwigwrite::process_val (acceptance checks on the call that fills a section, summary update, section hand-off), bigwigwrite::encode_section
+// @bounds one call from a per-chromosome state with ONE value already buffered and items_per_slot = 2, i.e. the call that fills the slot (the position where a section boundary falls); coordinates, value bits and chromosome length full width
+// @stubs tokio Handle::spawn -> run now; mpsc Sender::poll_ready/start_send -> always-ready FIFO log; alloc::fmt::format -> empty string
+// @cut refusal as seen through write()/JoinHandles; unknown chromosome / chromosome order (closures inside write_vals)
+// @witness cover: accepted (with and without next) and each refusal class reachable
+#[kani::proof]
+#[kani::unwind(4)]
+#[kani::stub(tokio::runtime::Handle::spawn, fake_spawn)]
+#[kani::stub(futures::channel::mpsc::Sender::poll_ready, fake_poll_ready)]
+#[kani::stub(futures::channel::mpsc::Sender::start_send, fake_start_send)]
+#[kani::stub(alloc::fmt::format, fake_format)]
+fn c13_bigwig_accept_slot_filling() {
+    let (ps, pe, cs, ce, ns, ne, len): (u32, u32, u32, u32, u32, u32, u32) = (kani::any(), kani::any(), kani::any(), kani::any(), kani::any(), kani::any(), kani::any());
+    let (cv, nv): (f32, f32) = (kani::any(), kani::any());
+    let has_next: bool = kani::any();
+    // the buffered value was accepted by the previous call: it is valid and does not overlap the current one
+    kani::assume(ps <= pe && pe <= cs);
+    let cur = Value { start: cs, end: ce, value: cv };
+    let next = Value { start: ns, end: ne, value: nv };
+    let mut env = Env::new();
+    let chrom = String::new();
+    let mut summary = Summary { total_items: 1, bases_covered: 0, min_val: 0.0, max_val: 0.0, sum: 0.0, sum_squares: 0.0 };
+    let mut items: Vec<Value> = Vec::with_capacity(2);
+    items.push(Value { start: ps, end: pe, value: 1.0 });
+    let mut options = BBIWriteOptions::default();
+    options.items_per_slot = 2;
+    options.compress = false;
+    let handle: &tokio::runtime::Handle = env.handle();
+    let r = poll_once(process_val(
+        cur,
+        if has_next { Some(&next) } else { None },
+        len,
+        &chrom,
+        &mut summary,
+        &mut items,
+        &options,
+        handle,
+        &mut env.tx,
+        7,
+    ));
+    let (done, is_err) = match &r {
+        Some(Ok(())) => (true, false),
+        Some(Err(_)) => (true, true),
+        None => (false, false),
+    };
+    core::mem::forget(r);
+    assert!(done, "[total] process_val suspended");
+    let bad = cs > ce || ce > len || (has_next && ce > ns);
+    assert!(is_err == bad, "[accept_iff] Err must be returned exactly for unrepresentable input, also on the call that fills a section");
+    if is_err {
+        assert!(items.len() == 1 && env.sent() == 0 && summary.total_items == 1, "[refuse_clean] a refused value must leave no trace");
+    } else {
+        assert!(items.is_empty() && env.sent() == 1, "[flushed] the slot-filling value must flush the section");
+    }
+    kani::cover!(!is_err && has_next, "accepted with a next value");
+    kani::cover!(!is_err && !has_next, "accepted last value");
+    kani::cover!(cs > ce, "start beyond end");
+    kani::cover!(cs <= ce && ce > len, "end beyond chromosome");
+    kani::cover!(cs <= ce && ce <= len && has_next && ce > ns, "overlap with next");
+    core::mem::forget(items);
+    core::mem::forget(chrom);
+}
+
 fn zsum(bases: u64, val: f64) -> Summary {
     Summary { total_items: 0, bases_covered: bases, min_val: val, max_val: val, sum: bases as f64 * val, sum_squares: bases as f64 * val * val }
 }
